@@ -4,15 +4,18 @@ import GateryModel.C20.VCD
 
 Anchors (`/repo/source/gatery/export/vhdl`):
 * `FileBasedTestbenchRecorder.cpp:350-357` `onPowerOn` (times := 0, one empty phase pushed)
-* `:371-378` `onNewPhase`: at `WaitClock::AFTER` flush up to the current time, then the overrides postponed from the DURING
-  phase become the first phase of the next interval and an empty phase is pushed
+* `onNewPhase`: at `WaitClock::BEFORE` of a time step that is entered again (same time as the last flush) note whether records are
+  pending (`m_pendingAfterEdge`: they were made after the clock edges of this time); at `WaitClock::AFTER` flush up to the current
+  time — unless such records are pending, then everything is kept for the next interval —, then the overrides postponed from the
+  DURING phase become the next phase and an empty phase is pushed
 * `:380-383` `onAfterMicroTick`: push an empty phase
 * `:392-399` `advanceTimeTo`: `ADV ⌊(t - written)·10¹²⌋`, `written += that many ps` (the remainder is carried)
 * `:401-426` `flush`: `interval = (end - start) / (2 + #phases)`, non-empty phase `i` is written at `start + interval·(1+i)`:
   its CHECKs, then its SETs (a `std::map`: by name), then its RSTs
-* `:444-456` `onReset`, `:458-475` `onSimProcOutputOverridden` (DURING phase: postponed), `:477-535` `onSimProcOutputRead`
+* `:444-456` `onReset`, `:458-481` `onSimProcOutputOverridden` (DURING phase: postponed; `Z` for high impedance), `:483-541` `onSimProcOutputRead`
   (CHECK only if the bit / any bit is defined; vector CHECKs print `-` for undefined bits)
-* `:52-55` destructor: final flush; `BaseTestbenchRecorder.h:69-76` `Phase`
+* destructor: final flush; if the run ends at the time of the last flush the end is moved `2 + #phases` ps behind it (one
+  picosecond per pending phase); `BaseTestbenchRecorder.h:69-76` `Phase`
 Ghost data carried by the model and not written to the file: the tag (index of the recorded callback) of every statement, the
 exact target time of every `ADV`, the interval / phase number of every group.
 -/
@@ -69,6 +72,8 @@ structure St where
   post : Phase := {}
   written : Rat := 0
   flushStart : Rat := 0
+  /-- `m_pendingAfterEdge` -/
+  pending : Bool := false
   /-- ghost -/
   flushes : Nat := 0
   deriving Repr, Inhabited
@@ -100,13 +105,26 @@ def modifyLast (f : Phase → Phase) : List Phase → List Phase
   | [p] => [f p]
   | p :: ps => p :: modifyLast f ps
 
+/-- one bit of an `ExtendedBitVectorState` as far as the recorder looks at it -/
+inductive XBit where
+  | f | t | x | z
+  deriving Repr, DecidableEq, Inhabited
+
+def XBit.char : XBit → Char
+  | .f => '0' | .t => '1' | .x => 'X' | .z => 'Z'
+
+/-- `WaitClock::TimingPhase` -/
+inductive Ph where
+  | before | during | after
+  deriving Repr, DecidableEq, Inhabited
+
 inductive TEv where
   | powerOn
-  /-- `onNewPhase(phase)`; `after` = (phase == AFTER); `now` = `getCurrentSimulationTime()` -/
-  | newPhase (after : Bool) (now : Rat)
+  /-- `onNewPhase(phase)`; `now` = `getCurrentSimulationTime()` -/
+  | newPhase (ph : Ph) (now : Rat)
   | microTick
   /-- `onSimProcOutputOverridden` of a non simulation-only pin; `during` = (`getCurrentPhase()` == DURING); bits LSB first -/
-  | set (during : Bool) (name : Str) (bits : List B4)
+  | set (during : Bool) (name : Str) (bits : List XBit)
   /-- `onReset` of a reset of interest -/
   | rst (during : Bool) (name : Str) (asserted : Bool)
   /-- `onSimProcOutputRead` resolved to a recorded pin name -/
@@ -118,6 +136,9 @@ inductive TEv where
 /-- `stream << state` -/
 def renderState (bits : List B4) : Str := bits.reverse.map b4Char
 
+/-- value line of a SET (`onSimProcOutputOverridden`): high impedance `Z`, undefined `X`, else the value; MSB first -/
+def renderSet (bits : List XBit) : Str := bits.reverse.map XBit.char
+
 def checkChar : B4 → Char
   | .f => '0' | .t => '1' | .x => '-'
 
@@ -126,16 +147,26 @@ def renderCheck (isBool : Bool) (bits : List B4) : Option Str :=
   if isBool then (if bits.head? = some .x ∨ bits.head? = none then none else some (renderState bits))
   else if bits.any (fun b => b ≠ .x) then some (bits.reverse.map checkChar) else none
 
+/-- `onNewPhase(BEFORE)`: the time step is entered again and records made since its flush are pending -/
+def pendingNow (st : St) (now : Rat) : Bool :=
+  decide (now = st.flushStart) && (!st.post.isEmpty || st.phases.any (fun p => !p.isEmpty))
+
+/-- end of the final flush (destructor) -/
+def finishStop (st : St) (now : Rat) : Rat :=
+  if now = st.flushStart then now + ((2 + st.phases.length : Nat) : Rat) / psPerSec else now
+
 def step (j : Nat) (st : St) : TEv → List Group × St
-  | .powerOn => ([], { st with written := 0, flushStart := 0, phases := st.phases ++ [{}] })
-  | .newPhase after now =>
-    if after then
+  | .powerOn => ([], { st with written := 0, flushStart := 0, pending := false, phases := st.phases ++ [{}] })
+  | .newPhase .before now => ([], { st with pending := pendingNow st now })
+  | .newPhase .during _ => ([], st)
+  | .newPhase .after now =>
+    if st.pending then ([], { st with phases := st.phases ++ [st.post, {}], post := {} })
+    else
       let r := flush st now
       (r.1, { r.2 with phases := [st.post, {}], post := {} })
-    else ([], st)
   | .microTick => ([], { st with phases := st.phases ++ [{}] })
   | .set during name bits =>
-    let x : Tagged := ⟨j, name, renderState bits⟩
+    let x : Tagged := ⟨j, name, renderSet bits⟩
     if during then ([], { st with post := { st.post with sets := mapSet x st.post.sets } })
     else ([], { st with phases := modifyLast (fun p => { p with sets := mapSet x p.sets }) st.phases })
   | .rst during name v =>
@@ -146,7 +177,7 @@ def step (j : Nat) (st : St) : TEv → List Group × St
     match renderCheck isBool bits with
     | some v => ([], { st with phases := modifyLast (fun p => { p with asserts := p.asserts ++ [⟨j, name, v⟩] }) st.phases })
     | none => ([], st)
-  | .finish now => flush st now
+  | .finish now => flush st (finishStop st now)
 
 /-- all groups written while the callbacks `evs` arrive, the first one having index `j` -/
 def run : Nat → St → List TEv → List Group
@@ -164,24 +195,63 @@ def render (gs : List Group) : Str := joinLines (gs.flatMap Group.lines)
 
 /-! ## specification side: which (interval, phase) a recorded callback belongs to -/
 
-/-- `fl` = number of AFTER-phase notifications (flushes) so far, `len` = number of phases currently open.
-    A callback outside the DURING phase belongs to the last open phase of the current interval; an override made in the DURING
-    phase belongs to phase 0 of the next interval. -/
-def slots : Nat → Nat → List TEv → List (Option (Nat × Nat))
-  | _, _, [] => []
-  | fl, len, .powerOn :: r => none :: slots fl (len + 1) r
-  | fl, len, .microTick :: r => none :: slots fl (len + 1) r
-  | fl, len, .newPhase after _ :: r => none :: (if after then slots (fl + 1) 2 r else slots fl len r)
-  | fl, _, .finish _ :: r => none :: slots (fl + 1) 1 r
-  | fl, len, .set during _ _ :: r => some (if during then (fl + 1, 0) else (fl, len - 1)) :: slots fl len r
-  | fl, len, .rst during _ _ :: r => some (if during then (fl + 1, 0) else (fl, len - 1)) :: slots fl len r
-  | fl, len, .read _ _ _ :: r => some (fl, len - 1) :: slots fl len r
+/-- where the overrides postponed from the DURING phase go at the AFTER notification: phase 0 of the next interval, or — when the
+    records of this interval are kept (`pending`) — the next phase of this interval -/
+def postSlot (st : St) : Nat × Nat := if st.pending then (st.flushes, st.phases.length) else (st.flushes + 1, 0)
 
-/-- times of the flushes, in order -/
-def flushTimes : List TEv → List Rat
-  | [] => []
-  | .newPhase true now :: r => now :: flushTimes r
-  | .finish now :: r => now :: flushTimes r
-  | _ :: r => flushTimes r
+/-- `postSlot` at the next AFTER notification -/
+def afterSlot : Nat → St → List TEv → Option (Nat × Nat)
+  | _, _, [] => none
+  | _, st, .newPhase .after _ :: _ => some (postSlot st)
+  | j, st, e :: r => afterSlot (j + 1) (step j st e).2 r
+
+/-- interval = number of flushes so far, phase = index of the last open phase.
+    A callback outside the DURING phase belongs to the last open phase of the current interval; an override made in the DURING
+    phase belongs to the phase opened by the coming AFTER notification. -/
+def slots : Nat → St → List TEv → List (Option (Nat × Nat))
+  | _, _, [] => []
+  | j, st, e :: r =>
+    (match e with
+      | .set during _ _ => if during then afterSlot j st (e :: r) else some (st.flushes, st.phases.length - 1)
+      | .rst during _ _ => if during then afterSlot j st (e :: r) else some (st.flushes, st.phases.length - 1)
+      | .read _ _ _ => some (st.flushes, st.phases.length - 1)
+      | _ => none) :: slots (j + 1) (step j st e).2 r
+
+def inDuring : Option (Ph × Rat) → Bool
+  | some (.during, _) => true
+  | _ => false
+
+def inBefore : Option (Ph × Rat) → Bool
+  | some (.before, _) => true
+  | _ => false
+
+/-- what the simulator guarantees about the order of the callbacks: phase notifications come in passes BEFORE → DURING → AFTER of one
+    simulation time, overrides are flagged DURING exactly inside a DURING phase, power-on does not happen inside one
+    (`cur` = last phase notification) -/
+def passes : Option (Ph × Rat) → List TEv → Bool
+  | _, [] => true
+  | cur, .newPhase .before t :: r => !inDuring cur && !inBefore cur && passes (some (.before, t)) r
+  | cur, .newPhase .during t :: r => decide (cur = some (.before, t)) && passes (some (.during, t)) r
+  | cur, .newPhase .after t :: r => decide (cur = some (.during, t)) && passes (some (.after, t)) r
+  | cur, .set during _ _ :: r => (during == inDuring cur) && passes cur r
+  | cur, .rst during _ _ :: r => (during == inDuring cur) && passes cur r
+  | cur, .powerOn :: r => !inDuring cur && !inBefore cur && passes none r
+  | cur, .microTick :: r => passes cur r
+  | cur, .read _ _ _ :: r => passes cur r
+  | cur, .finish _ :: r => passes cur r
+
+/-- the last phase notification before every callback (`none` after power-on) -/
+def phaseTrack : Option (Ph × Rat) → List TEv → List (Option (Ph × Rat))
+  | _, [] => []
+  | cur, e :: r => cur :: phaseTrack (match e with | .newPhase ph t => some (ph, t) | .powerOn => none | _ => cur) r
+
+/-- end times of the flushes, in order -/
+def flushTimes : Nat → St → List TEv → List Rat
+  | _, _, [] => []
+  | j, st, e :: r =>
+    (match e with
+      | .newPhase .after now => if st.pending then [] else [now]
+      | .finish now => [finishStop st now]
+      | _ => []) ++ flushTimes (j + 1) (step j st e).2 r
 
 end Gatery.C20.TV
